@@ -13,11 +13,20 @@ from fractions import Fraction
 import numpy as np
 
 ID = "C10"
-RULE = ("random structures (dyadic-grid, half-grid, PDB-like 3-decimals in float64 and float32, integer, free float, "
-        "near-cubic and constructed near-.5 coordinates; known / rare / unknown element symbols; 1-4 chains; 3-D and a few 2-D) "
-        "x configurations (sampling rate none/scalar/per-axis, origin given/derived, shape given/derived incl. truncating, "
-        "chain subsets, atomic_weight/atomic_number, Structure.to_volume or Density.from_structure), several configurations "
-        "run on the same Structure object in sequence; element filter through PDB files; bundled entries. "
+RULE = ("random structures (dyadic-grid, half-grid, PDB-like 3-decimals in float64 and float32, integer (int64/int32), free float, "
+        "near-cubic, far-from-the-origin fine-dyadic near ties, scaled by 2^-10 / 2^8 and constructed near-.5 coordinates; arrays "
+        "handed over C / Fortran ordered, strided, reversed, offset views, read-only; symbol and chain columns in their natural "
+        "(narrowest) string dtype or <U4 / <U8; known / rare / unknown element symbols; 1-4 chains; 3-D and a few 2-D) "
+        "x configurations (sampling rate none/scalar/per-axis as float, int, numpy float32 / 0-d / integer arrays, origin "
+        "given (incl. exactly 0, integer and float32 arrays)/derived, shape given/derived incl. truncating, chain subsets incl. "
+        "near-miss names (longer, other case), atomic_weight/atomic_number/left out, keyword or positional call, "
+        "Structure.to_volume or Density.from_structure), several configurations run on the same Structure object in sequence, "
+        "interleaved with edits of the object (coordinates moved in place / reassigned, elements and chains changed), with "
+        "calls on another structure of the same size, with the very same request again, every returned array overwritten by the "
+        "caller, and a follow-up conversion after which an earlier Density must still report its own count; planar / linear / "
+        "single-point arrangements; atoms placed on the faces of the box (index -1, 0, n-1, n, exact ties); "
+        "one structure with more than 10 000 atoms; the weight of every table symbol and of near-miss symbols; element filter "
+        "(with chain restriction) through PDB and mmCIF files, also at a path that held another structure before; bundled entries. "
         "distinct = distinct (coordinates-hash, configuration) pairs; cases with < 2 atoms in the subset, or all atoms in "
         "one voxel with none outside, are trivial and not counted")
 ASSUMPTIONS = [
@@ -26,7 +35,14 @@ ASSUMPTIONS = [
     "every float32/float64 coordinate, origin and rate is passed to the model as its exact rational value; the real code "
     "rounds (c - o) / r in floating point, so atoms whose exact quotient is within ~1e-9 (float64) / ~1e-5 (float32) of a "
     "half-integer without the computation being provably exact are compared modulo the two neighbouring voxels",
-    "the grid is float32: voxel values are compared with |err| <= 1e-3 + 1e-4*value, totals with 1e-4 relative",
+    "the grid is float32: voxel values are compared with |err| <= 1e-3 + 1e-4*value, totals with 1e-4 relative; a voxel that "
+    "receives K atoms is accumulated by K sequential float32 additions, off by at most (K+2)*2^-24 relative, so voxels with more "
+    "than ~1600 atoms are compared with that bound instead of 1e-4, and the difference clauses (grid(all) - grid(kept) == "
+    "grid(removed)) add (K+2)*2^-24*(|all|+|kept|+|removed|) per voxel for the rounding of the three accumulations",
+    "the weight an atom must deposit is the entry of the Lean table for exactly its symbol (clause weight-of-symbol); the other "
+    "clauses take the weight from the repository's accessor, which that clause and the table obligation tie to the Lean table",
+    "the caller's argument arrays / lists and the structure's coordinate, element and chain columns must be bit-identical after a "
+    "conversion (otherwise 'the origin given' and 'the structure' of the property are no longer what the caller holds)",
     "atoms whose quotient is exactly a half-integer on dyadic inputs are compared strictly (half-to-even)",
 ]
 TRUSTED = ["C10: numpy rint / add.at / float32 accumulation are exercised, not modelled beyond exact rationals"]
@@ -35,7 +51,10 @@ KEY_TIE = "to_volume:derived-origin:exact-tie-odd-shift"
 
 COMMON = ["C", "N", "O", "H", "S", "P"]
 UNKNOWN = ["X", "He", "c", "Zz", "D", "", "Xx"]
-RATES = [0.5, 1.0, 2.0, 0.25, 1.5, 3.0, 2.2, 1.35, 0.75, 4.0, 1.0, 1.0]
+RATES = [0.5, 1.0, 2.0, 0.25, 1.5, 3.0, 2.2, 1.35, 0.75, 4.0, 1.0, 1.0, 0.1, 10.0, 7.3, 1.0]
+LAYOUTS = ["C", "F", "strided", "reversed", "offset", "readonly", "revcols"]
+MAX_VOXELS = 4e6     # the generators plan boxes of at most ~3e5 voxels (derived) / 64 per axis (given)
+DTYPES = {"float64": np.float64, "float32": np.float32, "int64": np.int64, "int32": np.int32}
 
 
 # ----------------------------------------------------------------------------------------------------------------
@@ -47,8 +66,48 @@ def _ratio(x):
 
 
 def _coords_array(mol):
-    dt = {"float64": np.float64, "float32": np.float32, "int64": np.int64}[mol["dtype"]]
+    dt = DTYPES[mol["dtype"]]
     return np.array(mol["coords"], dtype=np.float64).astype(dt).reshape(len(mol["coords"]), -1)
+
+
+def _layout(a, how):
+    """the same values in another memory layout (the API must not care)"""
+    a = np.ascontiguousarray(a)
+    if how in (None, "C") or a.shape[0] == 0:
+        return a
+    if how == "readonly":
+        a = a.copy()
+        a.setflags(write=False)
+        return a
+    if how == "reversed":
+        return np.ascontiguousarray(a[::-1])[::-1]
+    if a.ndim == 1:
+        if how == "strided":
+            return np.repeat(a, 2)[::2]
+        if how == "offset":
+            return np.concatenate([a[:1], a, a[:1]])[1:-1]
+        return a
+    if how == "F":
+        return np.asfortranarray(a)
+    if how == "strided":
+        big = np.zeros((a.shape[0], 2 * a.shape[1]), dtype=a.dtype)
+        big[:, ::2] = a
+        return big[:, ::2]
+    if how == "offset":
+        big = np.full((a.shape[0] + 3, a.shape[1] + 2), 7, dtype=a.dtype)
+        big[2:-1, 1:-1] = a
+        return big[2:-1, 1:-1]
+    if how == "revcols":
+        return np.ascontiguousarray(a[:, ::-1])[:, ::-1]
+    return a
+
+
+def _sym_array(vals, mode):
+    """string column: '<U4' (default), the narrowest dtype numpy picks for these strings ('natural'), or '<U8'"""
+    vals = [str(v) for v in vals]
+    if mode == "natural":
+        return np.array(vals) if vals else np.array(vals, dtype="<U1")
+    return np.array(vals, dtype="<U8" if mode == "U8" else "<U4")
 
 
 def make_structure(mol):
@@ -61,10 +120,58 @@ def make_structure(mol):
         residue_name=["GLY"] * n, chain_identifier=list(mol["chains"]), residue_sequence_number=list(range(1, n + 1)),
         code_for_residue_insertion=["?"] * n, occupancy=[1.0] * n, temperature_factor=[0.0] * n,
         segment_identifier=["1"] * n, element_symbol=list(mol["elems"]), charge=["?"] * n, metadata={})
-    s.atom_coordinate = _coords_array(mol)
-    s.element_symbol = np.array(list(mol["elems"]), dtype="<U4")
-    s.chain_identifier = np.array(list(mol["chains"]), dtype="<U4")
+    lay = mol.get("layout")
+    s.atom_coordinate = _layout(_coords_array(mol), lay)
+    s.element_symbol = _layout(_sym_array(mol["elems"], mol.get("sym")), lay)
+    s.chain_identifier = _layout(_sym_array(mol["chains"], mol.get("sym")), lay)
     return s
+
+
+def mol_of(st, mol):
+    """the description of the structure object as it is now (after edits)"""
+    return dict(mol, coords=np.asarray(st.atom_coordinate).astype(np.float64).tolist(),
+                elems=[str(x) for x in st.element_symbol], chains=[str(x) for x in st.chain_identifier])
+
+
+def apply_edit(st, mol, ed):
+    """an edit a user makes on a Structure between two conversions; returns the new description"""
+    kind = ed["edit"]
+    if kind == "translate":
+        t = np.array(ed["by"], dtype=np.float64).astype(st.atom_coordinate.dtype)
+        if ed.get("inplace") and st.atom_coordinate.flags.writeable:
+            st.atom_coordinate += t
+        else:
+            st.atom_coordinate = st.atom_coordinate + t
+    elif kind == "coords":
+        st.atom_coordinate = np.array(ed["coords"], dtype=np.float64).astype(st.atom_coordinate.dtype)
+    elif kind == "elements":
+        st.element_symbol = _sym_array(ed["elems"], mol.get("sym"))
+    elif kind == "elements-inplace":
+        # single entries overwritten in the existing column (one-letter symbols fit every string dtype)
+        if st.element_symbol.flags.writeable:
+            for i, e in ed["set"]:
+                st.element_symbol[i] = e
+        else:
+            col = np.array(st.element_symbol)
+            for i, e in ed["set"]:
+                col[i] = e
+            st.element_symbol = col
+    elif kind == "chains":
+        st.chain_identifier = _sym_array(ed["chains"], mol.get("sym"))
+    return mol_of(st, mol)
+
+
+def apply_history(st, mol0, history):
+    """replays calls / edits / calls on other structures; returns the description of `st` afterwards"""
+    cur = mol0
+    for h in history or []:
+        if "edit" in h:
+            cur = apply_edit(st, cur, h)
+        elif "other" in h:
+            call_real(make_structure(h["other"]["mol"]), h["other"]["cfg"])
+        else:
+            call_real(st, h)
+    return cur
 
 
 def _as_param(v, kind):
@@ -78,31 +185,95 @@ def _as_param(v, kind):
         return tuple(v)
     if kind == "list":
         return list(v)
+    if kind == "int-tuple":
+        return tuple(int(x) for x in v)
+    if kind == "npint-tuple":
+        return tuple(np.int32(x) for x in v)
+    if kind == "int-array":
+        return np.array([int(x) for x in v], dtype=np.int64)
+    if kind == "i32-array":
+        return np.array([int(x) for x in v], dtype=np.int32)
+    if kind == "f32-array":
+        return np.array(v, dtype=np.float32)
+    if kind == "f32-scalar":
+        return np.float32(v)
+    if kind == "0d-array":
+        return np.array(float(v))
     return np.array(v)
 
 
+def _wt(cfg):
+    """weight type in force: the signature's default when left out"""
+    return cfg["wt"] or "atomic_weight"
+
+
+def _same(a, b):
+    if isinstance(a, np.ndarray):
+        return isinstance(b, np.ndarray) and a.dtype == b.dtype and a.shape == b.shape and bool(np.all(a == b))
+    return type(a) is type(b) and a == b
+
+
 def call_real(st, cfg):
-    """Run the real code.  Returns dict(grid, origin, rate, outside) or dict(raised=...)."""
+    """Run the real code.  Returns dict(grid, origin, rate, outside, mutated) or dict(raised=...)."""
     from tme import Density
-    kw = {}
-    if cfg["shape"] is not None:
-        kw["shape"] = _as_param(cfg["shape"], cfg.get("shape_kind", "tuple"))
-    if cfg["origin"] is not None:
-        kw["origin"] = _as_param(cfg["origin"], cfg.get("origin_kind", "tuple"))
-    if cfg["rate"] is not None:
-        kw["sampling_rate"] = _as_param(cfg["rate"], cfg.get("rate_kind", "tuple"))
-    if cfg["chain"] is not None:
-        kw["chain"] = cfg["chain"]
-    kw["weight_type"] = cfg["wt"]
+    p = {"shape": None if cfg["shape"] is None else _as_param(cfg["shape"], cfg.get("shape_kind", "tuple")),
+         "sampling_rate": None if cfg["rate"] is None else _as_param(cfg["rate"], cfg.get("rate_kind", "tuple")),
+         "origin": None if cfg["origin"] is None else _as_param(cfg["origin"], cfg.get("origin_kind", "tuple")),
+         "chain": cfg["chain"], "weight_type": cfg["wt"]}
+    snap = {k: (v.copy() if isinstance(v, np.ndarray) else list(v)) for k, v in p.items() if isinstance(v, (np.ndarray, list))}
+    before = [np.array(st.atom_coordinate), np.array(st.element_symbol), np.array(st.chain_identifier)]
     try:
+        if cfg.get("call") == "pos":
+            # positional, in the order of the signatures
+            if cfg["api"] == "from_structure":
+                args = [st, p["shape"], np.ones(1) if p["sampling_rate"] is None else p["sampling_rate"], p["origin"]]
+                kw = {}
+                if p["weight_type"] is not None:
+                    args.append(p["weight_type"])
+                    if p["chain"] is not None:
+                        args += [{}, p["chain"]]
+                elif p["chain"] is not None:
+                    kw["chain"] = p["chain"]
+                d = Density.from_structure(*args, **kw)
+            else:
+                args = [p["shape"], p["sampling_rate"], p["origin"], p["chain"], p["weight_type"]]
+                while args and args[-1] is None:
+                    args.pop()
+                out = st.to_volume(*args)
+        else:
+            kw = {k: v for k, v in p.items() if v is not None}
+            if cfg["api"] == "from_structure":
+                d = Density.from_structure(st, **kw)
+            else:
+                out = st.to_volume(**kw)
         if cfg["api"] == "from_structure":
-            d = Density.from_structure(st, **kw)
             grid, origin, rate, meta = d.data, d.origin, d.sampling_rate, d.metadata
         else:
-            grid, origin, rate = st.to_volume(**kw)
-            meta = st.metadata
-        return {"grid": np.asarray(grid), "origin": np.asarray(origin, dtype=np.float64).reshape(-1),
-                "rate": np.asarray(rate, dtype=np.float64).reshape(-1), "outside": int(meta.get("nAtoms_outOfBound", -1))}
+            (grid, origin, rate), meta = out, st.metadata
+        if int(np.prod(np.shape(grid), dtype=np.float64)) > MAX_VOXELS:
+            # every planned box has at most ~3e5 voxels; a grid this large is not evaluated (memory), it is reported
+            return {"raised": "oversized-grid", "msg": "grid of shape %s" % (tuple(np.shape(grid)),)}
+        mutated = [k for k, v in snap.items() if not _same(v, p[k])]
+        for name, b, a in zip(("atom_coordinate", "element_symbol", "chain_identifier"), before,
+                              (st.atom_coordinate, st.element_symbol, st.chain_identifier)):
+            if not _same(b, np.array(a)):
+                mutated.append(name)
+        real = {"grid": np.array(grid), "origin": np.array(origin, dtype=np.float64).reshape(-1),
+                "rate": np.array(rate, dtype=np.float64).reshape(-1), "outside": int(meta.get("nAtoms_outOfBound", -1)),
+                "mutated": mutated}
+        # what came back belongs to the caller: overwrite it, a later conversion must not hand the same memory out again
+        for arr in (grid, rate) + (() if origin is p["origin"] else (origin,)):
+            if isinstance(arr, np.ndarray) and arr.flags.writeable and arr.size:
+                arr[...] = -7
+        if cfg.get("followup") and cfg["api"] == "from_structure":
+            # a later conversion of the same structure with another number of atoms outside must not change what this
+            # Density reports
+            nd = real["origin"].size
+            f = {"shape": [1] * nd, "rate": None, "origin": [1.0e7] * nd} if real["outside"] == 0 else {"shape": None, "rate": 8.0, "origin": None}
+            f.update(chain=None, wt="atomic_number", api="to_volume", rate_kind="scalar", origin_kind="tuple", shape_kind="tuple")
+            call_real(st, f)
+            real["outside_after_followup"] = int(meta.get("nAtoms_outOfBound", -1))
+        return real
     except Exception as e:  # noqa
         return {"raised": type(e).__name__, "msg": str(e)[:200]}
 
@@ -170,8 +341,36 @@ def dense_from_sparse(sparse, shape, unit):
     return g.reshape(shape)
 
 
-def grids_close(a, b):
-    return a.shape == b.shape and bool(np.all(np.abs(a - b) <= 1e-3 + 1e-4 * np.maximum(np.abs(a), np.abs(b))))
+U32 = 2.0 ** -24      # unit roundoff of the float32 grid
+
+
+def grids_close(a, b, rel=1e-4):
+    return a.shape == b.shape and bool(np.all(np.abs(a - b) <= 1e-3 + rel * np.maximum(np.abs(a), np.abs(b))))
+
+
+def occupancy_bound(czyx, origin, rate, shape):
+    """upper bound on the number of atoms deposited into each voxel of a grid with this frame (atoms beside a tie are
+    counted in every voxel)"""
+    K = np.zeros(shape, dtype=np.float64)
+    czyx = np.asarray(czyx, dtype=np.float64)
+    if czyx.size == 0 or K.size == 0:
+        return K
+    q = (czyx - np.asarray(origin, dtype=np.float64)) / np.asarray(rate, dtype=np.float64)
+    near = (np.abs(q - np.floor(q) - 0.5) < 1e-6).any(axis=1)
+    idx = np.rint(q).astype(np.int64)
+    ok = np.all((idx >= 0) & (idx < np.array(shape)), axis=1) & ~near
+    if ok.any():
+        np.add.at(K, tuple(idx[ok].T), 1.0)
+    return K + float(near.sum())
+
+
+def diff_close(F, A, B, K):
+    """F - A == B for float32 grids accumulated atom by atom: 1e-3 + 1e-4 relative as everywhere, plus the rounding of up to
+    K sequential float32 additions per voxel in each of the three grids, (K+2) u (|F|+|A|+|B|) with u = 2^-24"""
+    if not (F.shape == A.shape == B.shape == K.shape):
+        return False
+    tol = 1e-3 + 1e-4 * np.maximum(np.abs(F - A), np.abs(B)) + (K + 2.0) * U32 * (np.abs(F) + np.abs(A) + np.abs(B))
+    return bool(np.all(np.abs(F - A - B) <= tol))
 
 
 # ----------------------------------------------------------------------------------------------------------------
@@ -185,13 +384,14 @@ def spec_eval(ctx, mol, cfg, real, relaxed_ties):
     G = real["grid"].astype(np.float64)
     shape = list(G.shape)
     o_ret, r_ret = real["origin"], real["rate"]
-    if len(shape) != nd or o_ret.size != nd or r_ret.size != nd or np.any(r_ret <= 0) or not np.all(np.isfinite(o_ret)):
+    if len(shape) != nd or o_ret.size != nd or r_ret.size != nd or not np.all(np.isfinite(r_ret)) or np.any(r_ret <= 0) \
+            or not np.all(np.isfinite(o_ret)):
         return [("voxel", False, {"why": "returned origin/rate/shape malformed", "shape": shape,
                                   "origin": o_ret.tolist(), "rate": r_ret.tolist()})], \
-               {"ambiguous": 0, "ties": 0, "inside": 0, "distinct_voxels": 0, "n": len(sub)}
+               {"ambiguous": 0, "ties": 0, "inside": 0, "distinct_voxels": 0, "n": len(sub), "kmax": 0.0}
     coords = _coords_array(mol)[sub]
     elems = [mol["elems"][i] for i in sub]
-    w_int, unit = weights_for(elems, cfg["wt"])
+    w_int, unit = weights_for(elems, _wt(cfg))
     atoms = [{"xyz": [_ratio(x) for x in coords[i]], "w": int(w_int[i])} for i in range(len(sub))]
     sp = ctx.driver.call("c10.spec", nd=nd, atoms=atoms, origin=[_ratio(x) for x in o_ret],
                          rate=[_ratio(x) for x in r_ret], shape=shape)
@@ -243,13 +443,22 @@ def spec_eval(ctx, mol, cfg, real, relaxed_ties):
         if not any(ins):
             out_lo += 1
     res = []
-    tol = lambda v: 1e-3 + 1e-4 * abs(v)
+    # float32 accumulation, atom by atom: K additions into one voxel are off by at most (K+2) u (u = 2^-24) relative; the
+    # 1e-4 of the assumptions covers up to ~1600 atoms per voxel, more crowded voxels get the bound of their occupancy
+    K = np.zeros(shape, dtype=np.float64)
+    if inside.any():
+        np.add.at(K, tuple(idx[inside].T), 1.0)
+    K += float(amb_atom.sum())
+    kmax = float(K.max()) if K.size else 0.0
+    rel_tot = max(1e-4, (kmax + 2.0) * U32)
+    rel = np.maximum(1e-4, (K + 2.0) * U32)
+    tol = lambda v: 1e-3 + rel_tot * abs(v)
     off = ~S
-    bad = np.abs(G - E)[off] > (1e-3 + 1e-4 * np.maximum(np.abs(G), np.abs(E))[off])
+    bad = np.abs(G - E)[off] > (1e-3 + rel * np.maximum(np.abs(G), np.abs(E)))[off]
     ok_vox = not bool(bad.any())
     detail = None
     if not ok_vox:
-        where = np.argwhere((np.abs(G - E) > (1e-3 + 1e-4 * np.maximum(np.abs(G), np.abs(E)))) & off)[:4]
+        where = np.argwhere((np.abs(G - E) > (1e-3 + rel * np.maximum(np.abs(G), np.abs(E)))) & off)[:4]
         detail = {"returned_origin": o_ret.tolist(), "returned_rate": r_ret.tolist(), "grid_shape": shape,
                   "voxels": [{"voxel": v.tolist(), "grid": float(G[tuple(v)]), "expected": float(E[tuple(v)])} for v in where]}
     sS = float(G[S].sum()) if S.any() else 0.0
@@ -261,8 +470,7 @@ def spec_eval(ctx, mol, cfg, real, relaxed_ties):
     tot = float(G.sum())
     e_tot = float(E.sum())
     lo, hi = e_tot + amb_lo, e_tot + amb_hi
-    res.append(("total", lo - 1e-3 - 1e-4 * abs(lo) <= tot <= hi + 1e-3 + 1e-4 * abs(hi),
-                {"grid_total": tot, "inside_weight": [lo, hi]}))
+    res.append(("total", lo - tol(lo) <= tot <= hi + tol(hi), {"grid_total": tot, "inside_weight": [lo, hi]}))
     res.append(("outside-count", out_lo <= real["outside"] <= out_hi,
                 {"reported": real["outside"], "expected": [out_lo, out_hi]}))
     # the Lean spec's own totals agree with the above when nothing is ambiguous (sanity of the harness arithmetic)
@@ -286,20 +494,25 @@ def spec_eval(ctx, mol, cfg, real, relaxed_ties):
                                                      "returned_origin": o_ret.tolist(), "returned_rate": r_ret.tolist()}))
                         break
     return res, {"ambiguous": int(amb_atom.sum()), "ties": int(ties.any(axis=1).sum()), "inside": int(inside.sum()),
-                 "distinct_voxels": len({tuple(v) for v in idx[inside].tolist()}), "n": len(sub)}
+                 "distinct_voxels": len({tuple(v) for v in idx[inside].tolist()}), "n": len(sub), "kmax": kmax}
 
 
-def check_case(ctx, mol, cfg, st=None, history=None, record=True):
+def check_case(ctx, mol, cfg, st=None, history=None, record=True, mol0=None):
     """One (structure, configuration): correspondence with the model + clauses of the property on the real outputs.
-    Returns True iff nothing failed."""
+    `mol` describes the structure object as it is when the configuration runs; `mol0` (when the history contains edits)
+    is the description it was built from.  Returns True iff nothing failed."""
     d = ctx.driver
     nd = len(mol["coords"][0])
     inp = {"mol": mol, "cfg": cfg, "history": history or []}
-    fresh = st is None
+    if mol0 is not None:
+        inp["mol0"] = mol0
     if st is None:
-        st = make_structure(mol)
-        for h in history or []:
-            call_real(st, h)
+        st = make_structure(mol0 or mol)
+        cur = apply_history(st, mol0 or mol, history)
+        if mol0 is not None and (cur["coords"], cur["elems"], cur["chains"]) != (mol["coords"], mol["elems"], mol["chains"]):
+            ctx.note("replayed history does not reproduce the recorded structure")
+            mol = cur
+            inp["mol"] = cur
     n_before = len(ctx.spec_failures) + len(ctx.disagreements)
     sub = subset_indices(mol, cfg["chain"])
     rr = resolved_rate(cfg, nd)
@@ -310,7 +523,7 @@ def check_case(ctx, mol, cfg, st=None, history=None, record=True):
     margs = dict(nd=nd, atoms=atoms, shape=cfg["shape"],
                  rate=None if cfg["rate"] is None else [_ratio(x) for x in np.atleast_1d(cfg["rate"])],
                  origin=None if cfg["origin"] is None else [_ratio(x) for x in cfg["origin"]],
-                 chain=cfg["chain"], wt=cfg["wt"])
+                 chain=cfg["chain"], wt=_wt(cfg))
     model = d.call("c10.toVolume", **margs)
 
     # ---- real
@@ -323,12 +536,29 @@ def check_case(ctx, mol, cfg, st=None, history=None, record=True):
         return len(ctx.spec_failures) + len(ctx.disagreements) == n_before
     if "raised" in real:
         ctx.agree("to_volume:outcome", inp, "raised:" + real["raised"], "returned")
-        ctx.spec("to_volume returns for a non-empty subset and valid arguments", inp, False, real, key="to_volume:raised")
+        if real["raised"] == "oversized-grid":
+            ctx.spec("the grid is the requested box, or the minimum box holding the atoms when the shape is derived", inp, False,
+                     {"got": real["msg"], "model_shape": model["shape"]}, key="to_volume:shape")
+        else:
+            ctx.spec("to_volume returns for a non-empty subset and valid arguments", inp, False, real, key="to_volume:raised")
         return False
 
     G = real["grid"]
     # ---- requested parameters come back
     ok = True
+    if real["origin"].size != nd or real["rate"].size != nd or not np.all(np.isfinite(real["origin"])) \
+            or not np.all(np.isfinite(real["rate"])) or np.any(real["rate"] <= 0) or G.ndim != nd:
+        ctx.spec("returned origin and sampling rate are finite, one per axis, the rate positive", inp, False,
+                 {"origin": real["origin"].tolist(), "rate": real["rate"].tolist(), "grid_shape": list(G.shape)}, key="to_volume:origin")
+        return False
+    ok &= ctx.spec("the conversion leaves the caller's arguments and the structure's columns as they were", inp,
+                   not real["mutated"], {"changed": real["mutated"]}, key="to_volume:arguments-mutated")
+    if "outside_after_followup" in real:
+        ok &= ctx.spec("the out-of-bounds count a Density reports is not changed by a later conversion of the same structure", inp,
+                       real["outside_after_followup"] == real["outside"],
+                       {"reported_first": real["outside"], "after_another_conversion": real["outside_after_followup"]},
+                       key="from_structure:metadata-aliased")
+        ctx.count("followup-conversion")
     if cfg["shape"] is not None:
         ok &= ctx.spec("grid has the requested shape", inp, list(G.shape) == list(cfg["shape"]),
                        {"got": list(G.shape)}, key="to_volume:shape")
@@ -366,11 +596,11 @@ def check_case(ctx, mol, cfg, st=None, history=None, record=True):
             continue
         ok &= ctx.spec(names[clause], inp, good, detail, key=key_override or ("to_volume:" + clause))
     if cfg["shape"] is None:
-        w_int, unit = weights_for([mol["elems"][i] for i in sub], cfg["wt"])
+        w_int, unit = weights_for([mol["elems"][i] for i in sub], _wt(cfg))
         allw = float(sum(w_int)) * unit
         tot = float(G.astype(np.float64).sum())
         ok &= ctx.spec("derived shape holds every atom (none outside, no mass lost)", inp,
-                       real["outside"] == 0 and abs(tot - allw) <= 1e-3 + 1e-4 * abs(allw),
+                       real["outside"] == 0 and abs(tot - allw) <= 1e-3 + max(1e-4, (info["kmax"] + 2.0) * U32) * abs(allw),
                        {"outside": real["outside"], "total": tot, "all": allw}, key="to_volume:derived-all-inside")
 
     # ---- correspondence with the model
@@ -391,10 +621,10 @@ def check_case(ctx, mol, cfg, st=None, history=None, record=True):
         ctx.agree("to_volume:origin", inp, real["origin"].tolist(), m_origin,
                   eq=lambda a, b: len(a) == len(b) and all(abs(x - y) <= 1e-9 * (1 + abs(x) + abs(y)) for x, y in zip(a, b)))
         ctx.agree("to_volume:outside", inp, real["outside"], model["outside"])
-        unit = 1e-9 if cfg["wt"] == "atomic_weight" else 1.0
+        unit = 1e-9 if _wt(cfg) == "atomic_weight" else 1.0
         if list(G.shape) == m_shape:
             Mg = dense_from_sparse(model["grid"], m_shape, unit)
-            ctx.agree("to_volume:grid", inp, True, grids_close(G.astype(np.float64), Mg))
+            ctx.agree("to_volume:grid", inp, True, grids_close(G.astype(np.float64), Mg, max(1e-4, (info["kmax"] + 2.0) * U32)))
         # integer positions straight from _coordinate_to_position (fresh subset object, as to_volume does)
         try:
             tmp = st.subset_by_chain(chain=cfg["chain"])
@@ -417,8 +647,21 @@ def check_case(ctx, mol, cfg, st=None, history=None, record=True):
         ctx.count("origin:" + ("given" if cfg["origin"] is not None else "derived"))
         ctx.count("shape:" + ("given" if cfg["shape"] is not None else "derived"))
         ctx.count("chain:" + ("all" if cfg["chain"] is None else "subset"))
-        ctx.count("wt:" + cfg["wt"])
-        ctx.count("api:" + cfg["api"])
+        ctx.count("wt:" + (cfg["wt"] or "left-out"))
+        ctx.count("api:" + cfg["api"] + ("(positional)" if cfg.get("call") == "pos" else ""))
+        ctx.count("layout:" + (mol.get("layout") or "C"))
+        ctx.count("string-columns:" + (mol.get("sym") or "U4"))
+        ctx.count("kinds:rate=%s,origin=%s,shape=%s" % (cfg.get("rate_kind") if cfg["rate"] is not None else "-",
+                                                       cfg.get("origin_kind") if cfg["origin"] is not None else "-",
+                                                       cfg.get("shape_kind") if cfg["shape"] is not None else "-"))
+        if cfg["origin"] is not None and not any(cfg["origin"]):
+            ctx.count("origin:exactly-zero")
+        if any("edit" in h for h in history or []):
+            ctx.count("after-edit-of-the-object")
+        if any("other" in h for h in history or []):
+            ctx.count("after-call-on-another-structure")
+        if len(sub) > 10000:
+            ctx.count("atoms>10000")
         ctx.count("outside:" + (">0" if real["outside"] > 0 else "0"))
         ctx.count("exact-ties:" + (">0" if info["ties"] else "0"))
         ctx.count("near-tie-ambiguous:" + (">0" if info["ambiguous"] else "0"))
@@ -443,9 +686,21 @@ def _kept(model, n):
 # ----------------------------------------------------------------------------------------------------------------
 # generators
 # ----------------------------------------------------------------------------------------------------------------
-def gen_mol(rng, n, kind=None, nd=3, table_keys=None):
-    kind = kind or str(rng.choice(["dyadic", "dense", "halfgrid", "pdb3", "f32", "int", "free", "nearcubic", "dyadic-wide"]))
+def _is_int(v):
+    return all(float(x) == int(x) for x in np.atleast_1d(v))
+
+
+def _is_f32(v):
+    return all(float(np.float32(x)) == float(x) for x in np.atleast_1d(v))
+
+
+KINDS = ["dyadic", "dense", "halfgrid", "pdb3", "f32", "int", "free", "nearcubic", "dyadic-wide", "far", "scaled", "int32", "flat"]
+
+
+def gen_mol(rng, n, kind=None, nd=3, table_keys=None, plain=False):
+    kind = kind or str(rng.choice(KINDS))
     dtype = "float64"
+    hint = None
     if kind == "dyadic":
         R = int(rng.choice([8, 24, 60]))
         c = rng.integers(-R, R + 1, size=(n, nd)) / 8.0
@@ -463,12 +718,32 @@ def gen_mol(rng, n, kind=None, nd=3, table_keys=None):
     elif kind == "int":
         c = rng.integers(-15, 16, size=(n, nd)).astype(np.float64)
         dtype = "int64"
+    elif kind == "int32":
+        c = rng.integers(-40, 41, size=(n, nd)).astype(np.float64)
+        dtype = "int32"
     elif kind == "nearcubic":
         ext = 6.0 + rng.integers(0, 5, size=nd) / 4.0          # extents differ by fractions of a voxel
         c = np.round(rng.uniform(0, 1, size=(n, nd)) * ext * 8) / 8.0
         c[0] = 0
         if n > 1:
             c[1] = ext
+    elif kind == "far":
+        # thousands of voxels from zero, fractions of 2^-12 / 2^-10 of a voxel beside a tie: exact in float64, lost in float32
+        hint = float(rng.choice([0.5, 1.0, 2.0]))
+        off = rng.integers(-8000, 8001, size=nd).astype(np.float64)
+        k = rng.integers(0, 10, size=(n, nd))
+        frac = rng.choice([0.5 + 2.0 ** -12, 0.5 - 2.0 ** -12, 0.5, 0.5 + 2.0 ** -10, 0.5 - 2.0 ** -10, 0.25, 0.0, 0.75], size=(n, nd))
+        c = off + (k + frac) * hint
+    elif kind == "scaled":
+        # the whole problem scaled by a power of two (exact): nothing may depend on the absolute size of a voxel
+        f = float(rng.choice([2.0 ** -10, 2.0 ** 8]))
+        c = rng.integers(-40, 41, size=(n, nd)) / 8.0 * f
+        hint = float(rng.choice([0.5, 1.0, 2.0, 1.5])) * f
+    elif kind == "flat":
+        # no extent at all on one or two axes (a planar / linear / single-point arrangement): intervals (c, c)
+        c = rng.integers(-24, 25, size=(n, nd)) / 8.0
+        flat = rng.permutation(nd)[:int(rng.integers(1, nd + 1))]
+        c[:, flat] = c[0, flat]
     else:
         c = rng.uniform(-25, 25, size=(n, nd))
     pool = list(COMMON) * 5 + list(UNKNOWN) + (list(table_keys) if table_keys else [])
@@ -477,43 +752,99 @@ def gen_mol(rng, n, kind=None, nd=3, table_keys=None):
     nch = int(rng.integers(1, 5))
     use = [labels[int(i)] for i in rng.choice(len(labels), size=nch, replace=False)]
     chains = [use[int(rng.integers(nch))] for _ in range(n)]
-    return {"coords": c.tolist(), "dtype": dtype, "elems": elems, "chains": chains, "kind": kind}
+    mol = {"coords": c.tolist(), "dtype": dtype, "elems": elems, "chains": chains, "kind": kind}
+    if hint is not None:
+        mol["rate_hint"] = hint
+    if not plain:
+        mol["layout"] = "C" if rng.random() < 0.45 else str(rng.choice(LAYOUTS[1:]))
+        mol["sym"] = str(rng.choice(["U4", "natural", "natural", "U8"]))
+    return mol
+
+
+def gen_edit(rng, mol):
+    """what a user does to a Structure between two conversions"""
+    n, nd = len(mol["coords"]), len(mol["coords"][0])
+    u = rng.random()
+    if u < 0.5:
+        if mol["dtype"] in ("int64", "int32"):
+            by = rng.integers(-5, 6, size=nd).astype(np.float64)
+        else:
+            by = rng.integers(-40, 41, size=nd) / 8.0
+        return {"edit": "translate", "by": by.tolist(), "inplace": bool(rng.random() < 0.5)}
+    if u < 0.7:
+        c = np.array(mol["coords"])[rng.permutation(n)]
+        return {"edit": "coords", "coords": c.tolist()}
+    if u < 0.8:
+        pool = COMMON + ["FE", "ZN", "X", "c"]
+        return {"edit": "elements", "elems": [str(pool[int(rng.integers(len(pool)))]) for _ in range(n)]}
+    if u < 0.9:
+        k = int(rng.integers(1, min(n, 3) + 1))
+        return {"edit": "elements-inplace", "set": [[int(rng.integers(n)), str(rng.choice(["C", "N", "O", "S", "H", "X"]))] for _ in range(k)]}
+    ch = list(mol["chains"])
+    return {"edit": "chains", "chains": [ch[int(i)] for i in rng.permutation(n)]}
+
+
+def gen_other(rng, mol):
+    """another structure with the same number of atoms, the same chains, other coordinates and elements"""
+    n, nd = len(mol["coords"]), len(mol["coords"][0])
+    c = np.array(mol["coords"])[rng.permutation(n)]
+    c = c + (rng.integers(-2, 3, size=nd) if mol["dtype"] in ("int64", "int32") else rng.integers(-12, 13, size=nd) / 8.0)
+    if mol["dtype"] == "float32":
+        c = c.astype(np.float32).astype(np.float64)
+    e = [mol["elems"][int(i)] for i in rng.permutation(n)]
+    return dict(mol, coords=c.tolist(), elems=e, kind="other")
 
 
 def gen_cfg(rng, mol, force=None):
     nd = len(mol["coords"][0])
     czyx = _coords_array(mol).astype(np.float64)[:, ::-1]
+    hint = mol.get("rate_hint")
     u = rng.random()
-    if u < 0.2:
-        rate, rk = None, None
+    if hint is not None and rng.random() < 0.7:
+        rate = hint if rng.random() < 0.5 else [hint * float(x) for x in rng.choice([1.0, 1.0, 2.0, 0.5], size=nd)]
+    elif u < 0.2:
+        rate = None
     elif u < 0.55:
-        rate, rk = float(rng.choice(RATES)), str(rng.choice(["scalar", "scalar", "int"]))
-        if rk == "int":
+        rate = float(rng.choice(RATES))
+        if rng.random() < 0.3:
             rate = float(max(1, int(round(rate))))
-        if rng.random() < 0.25:
-            rate, rk = [rate], str(rng.choice(["tuple", "array"]))
     else:
-        rate, rk = [float(x) for x in rng.choice(RATES, size=nd)], str(rng.choice(["tuple", "list", "array"]))
+        rate = [float(x) for x in rng.choice(RATES, size=nd)]
+        if rng.random() < 0.15:
+            rate = [float(max(1, int(round(x)))) for x in rate]
+    rk = None
+    if rate is not None and np.ndim(rate) == 0:
+        opts = ["scalar", "scalar", "0d-array"] + (["int", "int"] if _is_int(rate) else []) + (["f32-scalar"] if _is_f32(rate) else [])
+        rk = str(rng.choice(opts))
+        if rng.random() < 0.25:
+            rate, rk = [rate], str(rng.choice(["tuple", "array", "list"]))
+    elif rate is not None:
+        opts = ["tuple", "list", "array"] + (["int-tuple", "int-array"] if _is_int(rate) else []) + (["f32-array"] if _is_f32(rate) else [])
+        rk = str(rng.choice(opts))
     rr = resolved_rate({"rate": rate}, nd)
     r = np.array(rr)
     lo, hi = czyx.min(axis=0), czyx.max(axis=0)
     origin = None
     if rng.random() < 0.6:
         m = rng.random()
-        if m < 0.4:      # below the minimum by a dyadic number of voxels
+        if m < 0.35:      # below the minimum by a dyadic number of voxels
             origin = lo - rng.integers(0, 25, size=nd) / 8.0 * r
-        elif m < 0.7:    # inside the molecule: atoms fall left of the grid
+        elif m < 0.62:    # inside the molecule: atoms fall left of the grid
             origin = lo + (hi - lo) * rng.integers(0, 5, size=nd) / 8.0
             origin = np.round(origin * 8) / 8.0
-        elif m < 0.85:
+        elif m < 0.72:    # exactly zero on every axis (a given origin, not a missing one)
+            origin = np.zeros(nd)
+        elif m < 0.8:     # whole numbers
+            origin = np.floor(lo) - rng.integers(0, 3, size=nd)
+        elif m < 0.9:
             origin = np.round(lo - rng.uniform(0, 3, size=nd), 3)
         else:
             origin = lo - rng.uniform(0, 3, size=nd)
-        origin = [float(x) for x in origin]
+        origin = [float(x) + 0.0 for x in origin]
     shape = None
     if rng.random() < 0.55:
         o_eff = np.array(origin) if origin is not None else lo
-        full = np.floor((hi - o_eff) / r).astype(int) + 2
+        full = np.clip(np.floor((hi - o_eff) / r), -1, 1000).astype(int) + 2
         m = rng.random()
         if m < 0.45:
             shape = full + rng.integers(0, 3, size=nd)
@@ -529,9 +860,18 @@ def gen_cfg(rng, mol, force=None):
         pick = [labels[int(i)] for i in rng.choice(len(labels), size=k, replace=False)]
         if rng.random() < 0.15:
             pick.append("Z")
+        if rng.random() < 0.35:
+            # a name that is not a chain of this structure but close to one that is (longer / shorter / other case)
+            rest = [x for x in labels if x not in pick] or pick      # close to a chain that is NOT selected, if there is one
+            L = rest[int(rng.integers(len(rest)))]
+            dec = [L + L[0], L + "B", L.swapcase(), L[:1] if len(L) > 1 else L + "1", L.lower() + L.upper()]
+            dec = [x for x in dec if x and x not in labels and x != L]
+            if dec:
+                pick.insert(int(rng.integers(len(pick) + 1)), dec[int(rng.integers(len(dec)))])
         chain = ",".join(pick)
     if shape is None:
-        # keep derived grids small: coarsen the sampling until the box is below ~250k voxels
+        # keep derived grids small: coarsen the sampling until the box is below ~250k voxels (every pass divides the
+        # number of voxels by up to 2^nd, so this ends)
         while True:
             rr_ = np.array(resolved_rate({"rate": rate}, nd))
             ext = np.floor((hi - lo) / rr_) + 3
@@ -539,14 +879,47 @@ def gen_cfg(rng, mol, force=None):
                 break
             rate = (2.0 if rate is None else (rate * 2 if np.ndim(rate) == 0 else [x * 2 for x in rate]))
             rk = rk or "scalar"
+    oopts = ["tuple", "list", "array"]
+    if origin is not None:
+        oopts += (["int-tuple", "int-array"] if _is_int(origin) else []) + (["f32-array"] if _is_f32(origin) else [])
     cfg = {"shape": shape, "rate": rate, "origin": origin, "chain": chain,
-           "wt": str(rng.choice(["atomic_weight", "atomic_number"])),
+           "wt": None if rng.random() < 0.12 else str(rng.choice(["atomic_weight", "atomic_number"])),
            "api": "from_structure" if rng.random() < 0.3 else "to_volume",
-           "rate_kind": rk or "tuple", "origin_kind": str(rng.choice(["tuple", "list", "array"])),
-           "shape_kind": str(rng.choice(["tuple", "list", "array"]))}
+           "rate_kind": rk or "tuple", "origin_kind": str(rng.choice(oopts)),
+           "shape_kind": str(rng.choice(["tuple", "list", "array", "npint-tuple", "i32-array"]))}
+    if rng.random() < 0.15:
+        cfg["call"] = "pos"
+    if cfg["api"] == "from_structure" and rng.random() < 0.3:
+        cfg["followup"] = True
     if force:
         cfg.update(force)
     return cfg
+
+
+def gen_boundary(rng):
+    """atoms on and beside the faces of a given box: index -1, 0, n-1, n, with offsets 0, +-1/4, +-1/2 of a voxel (exact)"""
+    nd = 3
+    rate = [float(x) for x in rng.choice([0.5, 1.0, 2.0, 1.5, 0.75, 3.0], size=nd)]
+    origin = [float(x) for x in rng.integers(-40, 41, size=nd) / 8.0]
+    shape = [int(x) for x in rng.integers(1, 7, size=nd)]
+    n = int(rng.integers(2, 14))
+    j = np.empty((n, nd))
+    for k in range(nd):
+        j[:, k] = rng.choice([-1, 0, shape[k] - 1, shape[k], int(rng.integers(0, shape[k]))], size=n)
+    d = rng.choice([-0.5, -0.25, 0.0, 0.0, 0.25, 0.5], size=(n, nd))
+    czyx = np.array(origin) + (j + d) * np.array(rate)
+    mol = {"coords": czyx[:, ::-1].tolist(), "dtype": "float64", "elems": [str(rng.choice(COMMON)) for _ in range(n)],
+           "chains": [str(rng.choice(["A", "B"])) for _ in range(n)], "kind": "boundary",
+           "layout": str(rng.choice(LAYOUTS)), "sym": "natural"}
+    mode = int(rng.integers(4))
+    cfg = {"shape": shape if mode in (0, 1) else None, "rate": rate, "origin": origin if mode in (0, 2) else None,
+           "chain": None if rng.random() < 0.7 else "A,B" if rng.random() < 0.5 else "B",
+           "wt": str(rng.choice(["atomic_weight", "atomic_number"])), "api": "from_structure" if rng.random() < 0.3 else "to_volume",
+           "rate_kind": str(rng.choice(["tuple", "array"])), "origin_kind": str(rng.choice(["tuple", "array", "list"])),
+           "shape_kind": str(rng.choice(["tuple", "array"]))}
+    if cfg["chain"] == "B" and "B" not in mol["chains"]:
+        cfg["chain"] = None
+    return mol, cfg
 
 
 def gen_neartie(rng, n):
@@ -606,6 +979,11 @@ def chain_diff(ctx, mol, cfg, S=None):
         ctx.spec("chain restriction returns", inp, False, [full.get("raised"), a.get("raised"), b.get("raised")], key="to_volume:raised")
         return
     r = full["rate"]
+    if any(x["origin"].shape != r.shape or x["rate"].shape != r.shape or not np.all(np.isfinite(x["origin"]))
+           or not np.all(np.isfinite(x["rate"])) or np.any(x["rate"] <= 0) for x in (full, a, b)):
+        ctx.spec("returned origin and sampling rate are finite, one per axis, the rate positive", inp, False,
+                 [[x["origin"].tolist(), x["rate"].tolist()] for x in (full, a, b)], key="to_volume:origin")
+        return
     F = full["grid"].astype(np.float64)
     parts = []
     for g in (a, b):
@@ -615,7 +993,8 @@ def chain_diff(ctx, mol, cfg, S=None):
             return
         e, lost = embed(g["grid"].astype(np.float64), [int(x) for x in np.round(off)], F.shape)
         parts.append(e)
-    ok = grids_close(F - parts[0], parts[1])
+    K = occupancy_bound(_coords_array(mol)[:, ::-1], full["origin"], r, F.shape)
+    ok = diff_close(F, parts[0], parts[1], K)
     ctx.spec("restricting to chains changes the grid by exactly the removed atoms", inp, ok,
              {"max_abs_diff": float(np.abs(F - parts[0] - parts[1]).max()) if F.size else 0.0}, key="to_volume:chain-diff")
     # outside counts add up when the shape is given
@@ -626,12 +1005,30 @@ def chain_diff(ctx, mol, cfg, S=None):
     ctx.distinct(("chain-diff", zlib.crc32(json.dumps(mol["coords"]).encode()), json.dumps(base, sort_keys=True), S))
 
 
-def element_filter(ctx, rng, mol, cfg, E=None, decoy=None):
-    """Density.from_structure(file, filter_by_elements=E): the grid changes by exactly the removed atoms."""
+def element_filter(ctx, rng, mol, cfg, E=None, decoy=None, filters=None, ext=None, fchain="?", same_path=None, previous=None):
+    """Density.from_structure(file, filter_by_elements=E[, chain=...]): the grid changes by exactly the removed atoms.
+    `same_path`: the file goes to a path that held another structure before (which was read through the same API)."""
     from tme import Density, Structure
     from pv import env
-    path = os.path.join(env.scratch(), "c10_%08x.pdb" % int(rng.integers(1 << 32)))
-    src = make_structure(mol)
+    ext = ext or ("cif" if rng.random() < 0.4 else "pdb")
+    plain = lambda m: {"coords": m["coords"], "dtype": m["dtype"], "elems": m["elems"], "chains": m["chains"], "kind": m.get("kind", "?")}
+    if same_path is None:
+        same_path = bool(rng.random() < 0.5)
+    if same_path:
+        path = os.path.join(env.scratch(), "c10_same." + ext)
+        held = _TABLE.setdefault("same_path", {})
+        if previous is not None:      # replay: put the earlier content there and read it once, as the original run did
+            try:
+                make_structure(plain(previous)).to_file(path)
+                Density.from_structure(path)
+            except Exception:  # noqa
+                pass
+        else:
+            previous = held.get(ext)
+        held[ext] = plain(mol)
+    else:
+        path = os.path.join(env.scratch(), "c10_%08x.%s" % (int(rng.integers(1 << 32)), ext))
+    src = make_structure(plain(mol))
     try:
         src.to_file(path)
         parsed = Structure.from_file(path)
@@ -655,9 +1052,21 @@ def element_filter(ctx, rng, mol, cfg, E=None, decoy=None):
     two = ["CA", "CL", "CU", "CO", "CD", "NA", "NE", "NI", "SE", "SI", "SR", "OS", "HE", "HG", "FE", "PT", "PB", "MG", "MN", "ZN", "BR", "KR"]
     decoys = [x for x in two if x not in present and x[0] in present] + [x.lower() for x in present if x.lower() not in present]
     fE, fEc = set(E), set(Ec)
-    if decoys and (decoy if decoy is not None else rng.random() < 0.6):
+    if filters is not None:
+        fE, fEc = set(filters[0]), set(filters[1])
+    elif decoys and (decoy if decoy is not None else rng.random() < 0.6):
         fE |= {decoys[int(rng.integers(len(decoys)))]}
         fEc |= {decoys[int(rng.integers(len(decoys)))], decoys[int(rng.integers(len(decoys)))]}
+    # optionally a chain restriction on top (only when none of the three selections becomes empty)
+    labels = sorted(set(pm["chains"]))
+    if fchain == "?":
+        fchain = None
+        if len(labels) >= 2 and rng.random() < 0.35:
+            k = int(rng.integers(1, len(labels)))
+            cand = [labels[int(i)] for i in rng.choice(len(labels), size=k, replace=False)]
+            if all(any(c in cand and (keep is None or e in keep) for e, c in zip(pm["elems"], pm["chains"])) for keep in (None, E, Ec)):
+                fchain = ",".join(cand)
+    in_chain = (lambda c: True) if fchain is None else (lambda c, w=set(fchain.split(",")): c in w)
     kw = {}
     if cfg["shape"] is not None:
         kw["shape"] = tuple(cfg["shape"])
@@ -665,17 +1074,25 @@ def element_filter(ctx, rng, mol, cfg, E=None, decoy=None):
         kw["origin"] = tuple(cfg["origin"])
     if cfg["rate"] is not None:
         kw["sampling_rate"] = cfg["rate"]
-    kw["weight_type"] = cfg["wt"]
+    if cfg["wt"] is not None:
+        kw["weight_type"] = cfg["wt"]
+    if fchain is not None:
+        kw["chain"] = fchain
     inp = {"mol": pm, "cfg": dict(cfg, chain=None, api="from_structure(file)"), "elements_kept": sorted(E),
-           "filters_passed": [sorted(fE), sorted(fEc)], "decoy": bool(fE != E or fEc != Ec)}
+           "filters_passed": [sorted(fE), sorted(fEc)], "decoy": bool(fE != E or fEc != Ec), "file_ext": ext, "file_chain": fchain,
+           "same_path": same_path, "previous_at_same_path": previous if same_path else None}
     try:
         dens = [Density.from_structure(path, filter_by_elements=f, **kw) for f in (None, fE, fEc)]
     except Exception as e:  # noqa
         ctx.spec("element restriction returns", inp, False, type(e).__name__ + ":" + str(e)[:100], key="to_volume:raised")
         return
+    if any(int(np.prod(dd.data.shape, dtype=np.float64)) > MAX_VOXELS for dd in dens):
+        ctx.spec("the grid is the requested box, or the minimum box holding the atoms when the shape is derived", inp, False,
+                 {"got": [list(dd.data.shape) for dd in dens]}, key="to_volume:shape")
+        return
     # each of the three obeys the voxel clauses for the atoms it should contain
     for dd, keep in zip(dens, (set(present), E, Ec)):
-        idxs = [i for i, e in enumerate(pm["elems"]) if e in keep]
+        idxs = [i for i, e in enumerate(pm["elems"]) if e in keep and in_chain(pm["chains"][i])]
         sub = {"coords": [pm["coords"][i] for i in idxs], "dtype": pm["dtype"], "elems": [pm["elems"][i] for i in idxs],
                "chains": [pm["chains"][i] for i in idxs], "kind": "file"}
         real = {"grid": np.asarray(dd.data), "origin": np.asarray(dd.origin, dtype=np.float64).reshape(-1),
@@ -703,13 +1120,62 @@ def element_filter(ctx, rng, mol, cfg, E=None, decoy=None):
         parts = []
         for g in dens[1:]:
             off = (np.asarray(g.origin, dtype=np.float64) - np.asarray(dens[0].origin, dtype=np.float64)) / r
-            if np.any(np.abs(off - np.round(off)) > 1e-6):
-                return
+            if not np.all(np.isfinite(off)) or np.any(np.abs(off - np.round(off)) > 1e-6):
+                return      # (a non-finite origin / rate has already failed the voxel clause above)
             parts.append(embed(g.data.astype(np.float64), [int(x) for x in np.round(off)], F.shape)[0])
+        sel = [i for i, c in enumerate(pm["chains"]) if in_chain(c)]
+        K = occupancy_bound(np.array([pm["coords"][i] for i in sel]).reshape(len(sel), -1)[:, ::-1],
+                            np.asarray(dens[0].origin, dtype=np.float64), r, F.shape)
         ctx.spec("restricting to elements changes the grid by exactly the removed atoms", inp,
-                 grids_close(F - parts[0], parts[1]), key="from_structure:elements-diff")
-    ctx.count("element-filter")
+                 diff_close(F, parts[0], parts[1], K), key="from_structure:elements-diff")
+    ctx.count("element-filter:" + ext + ("+chain" if fchain else "") + ("+path-reused" if same_path and previous else ""))
     ctx.distinct(("element-filter", zlib.crc32(json.dumps(pm["coords"]).encode()), sorted(E), json.dumps(inp["cfg"], sort_keys=True)))
+
+
+def check_symbol_weights(ctx, rng):
+    """one atom per symbol, each in its own voxel: the voxel holds the table weight of exactly that symbol (every key of the
+    table, case / length variants of keys, symbols that are no key at all -> 0).  The expected weights are the constants of
+    the Lean table, not what the repository's accessor says."""
+    keys = sorted(_TABLE["t"])
+    probe = list(keys) + UNKNOWN
+    probe += [k.lower() for k in keys[:30]] + [k.capitalize() for k in keys if len(k) == 2][:30]
+    probe += [k + "X" for k in ("C", "N", "O", "H", "S")] + ["C1", "CAA", "FEE", " C", "C ", "c", "n", "o"]
+    probe = list(dict.fromkeys(probe))
+    probe = [probe[int(i)] for i in rng.permutation(len(probe))]
+    n = len(probe)
+    for wt in ("atomic_weight", "atomic_number", None):
+        for sym in ("U4", "natural"):
+            mol = {"coords": [[float(i), 0.0, 0.0] for i in range(n)], "dtype": "float64", "elems": probe,
+                   "chains": ["A"] * n, "kind": "symbols", "sym": sym}
+            cfg = {"shape": [1, 1, n], "rate": None, "origin": [0.0, 0.0, 0.0], "chain": None, "wt": wt,
+                   "api": "to_volume" if sym == "U4" else "from_structure", "rate_kind": "tuple", "origin_kind": "tuple", "shape_kind": "tuple"}
+            real = call_real(make_structure(mol), cfg)
+            want = ctx.driver.call("c10.weights", wt=_wt(cfg), syms=probe)
+            unit = 1e-9 if _wt(cfg) == "atomic_weight" else 1.0
+            inp = {"mol": mol, "cfg": cfg, "history": []}
+            if "raised" in real:
+                ctx.spec("to_volume returns for a non-empty subset and valid arguments", inp, False, real, key="to_volume:raised")
+                continue
+            g = real["grid"].astype(np.float64).reshape(-1)
+            bad = [{"symbol": s_, "grid": float(g[i]), "table": w * unit} for i, (s_, w) in enumerate(zip(probe, want))
+                   if g.size != n or abs(g[i] - w * unit) > 1e-6 * max(1.0, abs(w * unit))]
+            ctx.spec("an atom weighs what the element table says for exactly its symbol (0 for a symbol that is no key)", inp,
+                     not bad, {"symbols": bad[:6]}, key="to_volume:weight-of-symbol")
+            ctx.count("symbol-weights")
+
+
+def run_large(ctx, rng, keys):
+    """structures with more than 10 000 atoms (thresholds at which an implementation may switch algorithms)"""
+    for i in range(ctx.budget(1, 3)):
+        n = int(rng.choice([10001, 12000, 16400])) if not ctx.thorough else int(rng.choice([10001, 20000, 33000]))
+        mol = gen_mol(rng, n, kind=str(rng.choice(["dyadic", "pdb3", "dyadic-wide", "free"])), table_keys=keys)
+        st = make_structure(mol)
+        hist = []
+        for j in range(2):
+            cfg = gen_cfg(rng, mol)
+            check_case(ctx, mol, cfg, st=st, history=list(hist))
+            hist.append(cfg)
+        chain_diff(ctx, mol, gen_cfg(rng, mol, force={"chain": None}))
 
 
 # ----------------------------------------------------------------------------------------------------------------
@@ -761,8 +1227,10 @@ def run_corpus(ctx):
     from pv import env
     for f in sorted(glob.glob(os.path.join(env.VERIF, "corpus", "C10_*.json"))):
         rec = json.load(open(f))
+        prev = []      # the earlier cases of the file, as conversions of other structures (a replay then reproduces leaks between them)
         for case in rec["cases"]:
-            check_case(ctx, case["mol"], case["cfg"], history=case.get("history"))
+            check_case(ctx, case["mol"], case["cfg"], history=prev + (case.get("history") or []), mol0=case.get("mol0"))
+            prev = (prev + [{"other": {"mol": case["mol"], "cfg": case["cfg"]}}])[-3:]
             ctx.count("corpus")
 
 
@@ -774,23 +1242,50 @@ def run(ctx):
     run_corpus(ctx)
     keys = sorted(_TABLE["t"])
 
-    # ---- main stream: a structure, several configurations on the same object (metadata must not go stale)
+    check_symbol_weights(ctx, rng)
+
+    # ---- main stream: a structure, several configurations on the same object (metadata must not go stale); between two
+    #      configurations the object may be edited (the next conversion must see the edit) or another structure of the same
+    #      size may be converted with the same arguments (nothing may be remembered from it)
     n_mol = ctx.budget(800, 6000)
     for i in range(n_mol):
         nd = 2 if rng.random() < 0.05 else 3
-        mol = gen_mol(rng, sizes(ctx, rng), nd=nd, table_keys=keys)
-        st = make_structure(mol)
-        hist = []
+        mol0 = gen_mol(rng, sizes(ctx, rng), nd=nd, table_keys=keys)
+        st = make_structure(mol0)
+        mol, hist, edited = mol0, [], False
         for j in range(int(rng.integers(2, 6))):
+            if j > 0 and rng.random() < 0.25:
+                ed = gen_edit(rng, mol)
+                mol = apply_edit(st, mol, ed)
+                hist.append(ed)
+                edited = True
             cfg = gen_cfg(rng, mol)
-            check_case(ctx, mol, cfg, st=st, history=list(hist))
+            if j > 0 and rng.random() < 0.12:
+                cfg = dict(last)          # the very same request again (possibly after an edit of the object)
+                ctx.count("same-request-again")
+            last = cfg
+            if rng.random() < 0.12:
+                other = {"mol": gen_other(rng, mol), "cfg": cfg}
+                call_real(make_structure(other["mol"]), cfg)
+                hist.append({"other": other})
+            check_case(ctx, mol, cfg, st=st, history=list(hist), mol0=mol0 if edited else None)
             hist.append(cfg)
             if j == 0 and i % 3 == 0:
                 chain_diff(ctx, mol, gen_cfg(rng, mol, force={"chain": None}))
-        if i % 4 == 0 and nd == 3 and mol["dtype"] != "int64":
+        if i % 4 == 0 and nd == 3 and mol["dtype"] not in ("int64", "int32"):
             element_filter(ctx, rng, mol, gen_cfg(rng, mol, force={"chain": None}))
         if i < 4:
             ctx.sample({"coords[:3]": mol["coords"][:3], "n": len(mol["coords"]), "elems[:3]": mol["elems"][:3], "cfg": cfg})
+
+    # ---- atoms on the faces of the box
+    for i in range(ctx.budget(250, 3000)):
+        mol, cfg = gen_boundary(rng)
+        check_case(ctx, mol, cfg)
+        if i % 5 == 0 and cfg["origin"] is not None:
+            chain_diff(ctx, mol, dict(cfg, chain=None))
+
+    # ---- more than 10 000 atoms
+    run_large(ctx, rng, keys)
 
     # ---- malformed stream: wrong number of rates, chains that do not exist (both must raise, as the model says)
     for i in range(ctx.budget(12, 60)):
@@ -843,7 +1338,10 @@ def search(ctx):
     for d in ctx.disagreements[:10]:
         inp = d.get("input") or {}
         if isinstance(inp, dict) and "mol" in inp and "cfg" in inp:
-            check_case(ctx, inp["mol"], inp["cfg"], history=inp.get("history"), record=False)
+            check_case(ctx, inp["mol"], inp["cfg"], history=inp.get("history"), record=False, mol0=inp.get("mol0"))
+    if fails() > base:
+        return
+    check_symbol_weights(ctx, rng)
     if fails() > base:
         return
     for rate in (1.0, 2.0, 0.5, 1.5):
@@ -861,13 +1359,21 @@ def search(ctx):
             return
     keys = sorted(_TABLE.get("t", {}))
     for i in range(ctx.budget(300, 2000)):
-        mol = gen_mol(rng, int(rng.choice([2, 3, 5, 20, 80])), table_keys=keys)
-        st = make_structure(mol)
-        hist = []
+        mol0 = gen_mol(rng, int(rng.choice([2, 3, 5, 20, 80])), table_keys=keys)
+        st = make_structure(mol0)
+        mol, hist, edited = mol0, [], False
         for j in range(4):
+            if j > 0 and rng.random() < 0.3:
+                ed = gen_edit(rng, mol)
+                mol = apply_edit(st, mol, ed)
+                hist.append(ed)
+                edited = True
             cfg = gen_cfg(rng, mol)
-            check_case(ctx, mol, cfg, st=st, history=list(hist), record=False)
+            check_case(ctx, mol, cfg, st=st, history=list(hist), record=False, mol0=mol0 if edited else None)
             hist.append(cfg)
+        if i % 7 == 0:
+            bm, bc = gen_boundary(rng)
+            check_case(ctx, bm, bc, record=False)
         if i % 5 == 0:
             chain_diff(ctx, mol, gen_cfg(rng, mol, force={"chain": None}))
         if fails() > base and i > 20:
@@ -877,10 +1383,14 @@ def search(ctx):
 def replay(ctx, rec):
     check_table(ctx)
     inp = rec.get("input") or {}
-    if "elements_kept" in inp:
-        element_filter(ctx, ctx.rng("replay"), inp["mol"], inp["cfg"], E=set(inp["elements_kept"]), decoy=inp.get("decoy"))
+    if rec.get("key") == "to_volume:weight-of-symbol":
+        check_symbol_weights(ctx, ctx.rng("replay"))
+    elif "elements_kept" in inp:
+        element_filter(ctx, ctx.rng("replay"), inp["mol"], inp["cfg"], E=set(inp["elements_kept"]), decoy=inp.get("decoy"),
+                       filters=inp.get("filters_passed"), ext=inp.get("file_ext"), fchain=inp.get("file_chain"),
+                       same_path=bool(inp.get("same_path")), previous=inp.get("previous_at_same_path"))
     elif "mol" in inp and "cfg" in inp:
-        check_case(ctx, inp["mol"], inp["cfg"], history=inp.get("history"))
+        check_case(ctx, inp["mol"], inp["cfg"], history=inp.get("history"), mol0=inp.get("mol0"))
         if "chains_kept" in inp:
             chain_diff(ctx, inp["mol"], inp["cfg"], S=inp["chains_kept"])
     else:
